@@ -127,6 +127,9 @@ class Disk(object):
         self.bufsize = 8192
         self.chunk = 8192
         self.raw_calls = 0
+        self.crash_at = None     # raw write index before which the process "crashes"
+        self.frozen = False      # after a crash nothing reaches the disk any more
+        self.raw_writes = 0
 
     def used(self):
         return sum(len(v) for v in self.files.values())
@@ -140,6 +143,8 @@ class Disk(object):
         self.capacity = io_plan.get("capacity")
         self.open_err = io_plan.get("open_err")
         self.close_fail = bool(io_plan.get("close_fail"))
+        self.crash_at = io_plan.get("crash_at")
+        self.raw_writes = 0
         self.fired = {}
         self.unrecoverable = False
         self.in_close = False
@@ -153,6 +158,10 @@ class Disk(object):
         if self.plan:
             return self.plan.pop(0)
         return "ok"
+
+
+class SimCrash(BaseException):
+    """the simulated process dies here: user-space buffers are lost, the disk keeps what it has"""
 
 
 class SimRaw(io.RawIOBase):
@@ -181,6 +190,13 @@ class SimRaw(io.RawIOBase):
 
     def write(self, b):
         d = self.disk
+        if d.frozen:
+            raise OSError(errno.EIO, "process crashed (simulated): no further I/O")
+        if d.crash_at is not None and d.raw_writes >= d.crash_at:
+            d.frozen = True
+            d.fire("crash_mid_save")
+            raise SimCrash()
+        d.raw_writes += 1
         dec_ = d.next_decision()
         phase = "close" if d.in_close else "write"
         if dec_ == "eintr":
@@ -236,7 +252,7 @@ class SimRaw(io.RawIOBase):
         io.RawIOBase.close(self)
         if self in d.open_raws:
             d.open_raws.remove(self)
-        if self._w and d.close_fail:
+        if self._w and d.close_fail and not d.frozen:
             d.close_fail = False
             d.fire("close_fail")
             d.unrecoverable = True
@@ -343,10 +359,10 @@ def generate(rng, tier, index):
     fault_free = rng.chance(0.4)
     kinds = []
     if not fault_free:
-        kinds = [k for k in ["short", "eintr", "eio", "enospc", "close_fail", "open_err", "foreign"]
-                 if rng.chance(0.55)]
+        allk = ["short", "eintr", "eio", "enospc", "close_fail", "open_err", "foreign", "crash"]
+        kinds = [k for k in allk if rng.chance(0.5)]
         if not kinds:
-            kinds = [rng.choice(["short", "eintr", "eio", "enospc", "close_fail", "open_err", "foreign"])]
+            kinds = [rng.choice(allk)]
     n_ops = rng.between(2, 30)
     n_obj = rng.between(1, 3)
     n_path = rng.between(1, 3)
@@ -407,6 +423,14 @@ def generate(rng, tier, index):
         elif k in ("update_other", "update_yourself"):
             d = {nm: enc(gen_value(rng, numstr)) for nm in rng.sample(names, rng.between(0, min(5, len(names))))}
             ops.append([k, o, d])
+        elif k == "save" and "crash" in kinds and rng.chance(0.12):
+            # the process dies before the n-th raw write of this save; everything in memory is lost
+            ops.append(["crash_save", o, path, rng.choice([0, 0, 1, 1, 2, 3, 5, 8])])
+            objs = []
+            canvary = {}
+            ops.append(["read_par_file", next_obj, rng.choice(written), gen_plan(rng, "r", kinds)])
+            objs.append(next_obj)
+            next_obj += 1
         elif k == "save":
             if "foreign" in kinds and rng.chance(0.15):
                 d = {nm: enc(gen_value(rng, numstr)) for nm in rng.sample(names, rng.between(1, min(5, len(names))))}
@@ -703,6 +727,60 @@ def execute(trace):
                                 if k not in amb and not same(got[k], exp[k]):
                                     raise _Violation("acknowledged save does not round-trip (value)", site,
                                                      "key %r saved %s loaded %s" % (k, show(exp[k]), show(got[k])))
+                    elif kind == "crash_save":
+                        path, at = op[2], int(op[3])
+                        n_save += 1
+                        snap = [(k, m.p[k][0]) for k in sorted(m.p)]
+                        if any(isinstance(v, float) and v != v for _, v in snap):
+                            continue
+                        disk.arm({"crash_at": at})
+                        crashed = False
+                        try:
+                            try:
+                                o.saveparameters(path)
+                            except SimCrash:
+                                crashed = True
+                            except Exception:
+                                # the I/O stack turns the crash into OSError when close() retries the flush
+                                if not disk.frozen:
+                                    raise
+                        finally:
+                            merge_fired()
+                        crashed = crashed or disk.frozen
+                        if not crashed:
+                            # the save finished before the crash point: an ordinary acknowledged save
+                            disk.disarm()
+                            paths[path] = ("ack", snap)
+                            outcome = "ack(no crash)"
+                            count("save.acknowledged")
+                        else:
+                            # process death: every in-memory object is gone, destructors must not reach the disk
+                            import gc
+                            o = m = None
+                            objs.clear()
+                            models.clear()
+                            gc.collect()
+                            disk.open_raws[:] = []
+                            disk.frozen = False
+                            disk.disarm()
+                            paths[path] = ("unknown",)
+                            outcome = "crashed"
+                            touched = []
+                            count("relax.path_unknown_after_crash")
+                            # durability across the crash: every other acknowledged file is still intact
+                            for pth in sorted(paths):
+                                st2 = paths[pth]
+                                if st2[0] not in ("ack", "foreign"):
+                                    continue
+                                fresh = P.parameters()
+                                r2, _ = do_load(fresh, pth, None, site)
+                                exp, amb = expected_from_snapshot(st2[1])
+                                got = fresh.get_parameters() if r2 is None else {}
+                                if r2 is not None or sorted(got) != sorted(exp) or not all(
+                                        k in amb or same(got[k], exp[k]) for k in exp):
+                                    raise _Violation("crash during a save damaged another acknowledged file", site,
+                                                     "%s: load %s, keys %s expected %s" % (pth, r2 or "ok", sorted(got), sorted(exp)))
+                                count("probe.other_file_intact_after_crash")
                     elif kind in ("load", "read_par_file"):
                         path, plan = op[2], op[3]
                         st = paths.get(path, ("absent",))
@@ -775,6 +853,9 @@ def execute(trace):
                 for oid in touched:
                     if oid in objs:
                         observe(oid, site)
+                for oid in sorted(objs):
+                    if oid not in touched:
+                        observe(oid, site + ":bystander-object")
                 events.append([opi, kind, outcome, state_digest()])
                 sets["states"].add(events[-1][3])
                 prev_kinds.append(kind)
@@ -825,6 +906,10 @@ def shrink_candidates(trace):
                 yield t
         size //= 2
     for i, op in enumerate(ops):
+        if op[0] == "crash_save" and op[3] != 0:
+            t = copy.deepcopy(trace)
+            t["ops"][i][3] = 0
+            yield t
         if op[0] in ("save", "load", "read_par_file") and op[3]:
             t = copy.deepcopy(trace)
             t["ops"][i][3] = {}
@@ -841,7 +926,7 @@ def shrink_candidates(trace):
                         yield t
         # shrink dictionaries and values
         for pos in range(len(op)):
-            if isinstance(op[pos], dict) and op[0] not in ("save", "load", "read_par_file"):
+            if isinstance(op[pos], dict) and op[0] not in ("save", "load", "read_par_file", "crash_save"):
                 for k in sorted(op[pos].keys()):
                     t = copy.deepcopy(trace)
                     del t["ops"][i][pos][k]
@@ -882,7 +967,7 @@ def _value_weight(x):
 
 def trace_size(trace):
     return (len(trace["ops"]), sum(_plan_weight(op) for op in trace["ops"]),
-            sum(_value_weight(op[2:]) for op in trace["ops"] if op[0] not in ("save", "load", "read_par_file")),
+            sum(_value_weight(op[2:]) for op in trace["ops"] if op[0] not in ("save", "load", "read_par_file", "crash_save")),
             0 if (trace["config"].get("bufsize") == 8192 and trace["config"].get("chunk") == 8192) else 1)
 
 
